@@ -15,6 +15,37 @@ CHECKS = {
     ),
 }
 
+CHECKS.update({
+    "C04": (
+        "structured+CL",
+        "property-based testing (Hypothesis): generated request arguments -> afkak encoder -> independent strict parser (vlib/refproto) -> field-for-field comparison; version negotiation by stateful traces on the simulated cluster",
+        "Generated-input search over the 14 request encoders (and create_message_set): the emitted bytes must parse, whole frame consumed, under an independently written strict parser to exactly the supplied values. Exploration, not proof: thousands of argument tuples per encoder per run incl. boundary values.",
+        "Trusts vlib/refproto.py as the protocol grammar (self-checked against golden byte strings hand-written in afkak's tests).",
+        "DESIGN.md 3/C04",
+    ),
+    "C05": (
+        "structured",
+        "property-based testing (Hypothesis): independent encoder (vlib/refproto) -> afkak decoder -> field-for-field comparison; afkak encode -> decode round trip on message sets (metamorphic identity)",
+        "Generated-input search over all 13 response decoders, both embedded blobs and message sets in both formats with gzip wrappers as a broker lays them out; decoded values must equal the encoded ones incl. absolute offsets inside wrappers.",
+        "Trusts refproto's response encoders and its KIP-31 offset rule; snappy absent from the sandbox.",
+        "DESIGN.md 3/C05",
+    ),
+    "C12": (
+        "structured+fuzz",
+        "property-based testing with exhaustive per-case enumeration (every bit of every checksummed region, every truncation point), Hypothesis mutator over valid responses, and coverage-guided fuzzing (atheris/libFuzzer) with a deterministic work-budget oracle inside the target",
+        "Every single-bit flip and every cut point of each generated set is enumerated; bursts and in-wrapper corruption are sampled; arbitrary and mutated bytes are fed to all 17 decoders under a line-count budget linear in the input. Exploration of the input space; the linear budget is evidence of proportionality, not a complexity proof.",
+        "Work measured as executed afkak source lines via sys.monitoring; budget constants calibrated on valid inputs; decompression output charged to the budget.",
+        "DESIGN.md 3/C12",
+    ),
+    "C15": (
+        "structured",
+        "property-based testing (Hypothesis) with validity predicates over the leader's assignment, permutation metamorphic relation, differential decode against an independent parser, plus exhaustive small-scope enumeration",
+        "Random member/subscription/partition maps plus every input in a small scope; exact cover, only-subscribed, balance, order independence and decode agreement are checked on each.",
+        "Assumes the partition map covers all subscribed topics (coordinator's job).",
+        "DESIGN.md 3/C15",
+    ),
+})
+
 NOT_YET = {
 }
 
